@@ -155,7 +155,31 @@ pub fn probe_tracked(a: &Array) -> bool {
     prev
 }
 
+/// the three closures of corgi::activation, created once and reused for every call (hidden state in a closure
+/// would otherwise never be observed)
+pub struct Acts {
+    pub relu: corgi::activation::Activation,
+    pub sigmoid: corgi::activation::Activation,
+    pub softmax: corgi::activation::Activation,
+}
+impl Acts {
+    pub fn fresh() -> Rc<Acts> {
+        Rc::new(Acts { relu: corgi::activation::relu(), sigmoid: corgi::activation::sigmoid(), softmax: corgi::activation::softmax() })
+    }
+}
+thread_local! {
+    /// installed by a call sequence so that all of its calls share one set of closures
+    static SHARED_ACTS: RefCell<Option<Rc<Acts>>> = RefCell::new(None);
+}
+pub fn with_shared_acts<X>(f: impl FnOnce() -> X) -> X {
+    SHARED_ACTS.with(|s| *s.borrow_mut() = Some(Acts::fresh()));
+    let r = f();
+    SHARED_ACTS.with(|s| *s.borrow_mut() = None);
+    r
+}
+
 pub struct Exec {
+    pub acts: Rc<Acts>,
     pub slots: Vec<Option<Array>>,
     pub log: Log,
     pub n_custom: usize,
@@ -165,7 +189,8 @@ pub struct Exec {
 
 impl Exec {
     pub fn new() -> Exec {
-        Exec { slots: Vec::new(), log: Rc::new(RefCell::new(Vec::new())), n_custom: 0, custom_of_slot: Vec::new() }
+        let acts = SHARED_ACTS.with(|s| s.borrow().clone()).unwrap_or_else(Acts::fresh);
+        Exec { acts, slots: Vec::new(), log: Rc::new(RefCell::new(Vec::new())), n_custom: 0, custom_of_slot: Vec::new() }
     }
     pub fn get(&self, h: usize) -> &Array {
         self.slots[h].as_ref().expect("dead slot")
@@ -187,12 +212,12 @@ impl Exec {
         if op.consumes_operand() {
             // the closures of corgi::activation take the array by value: the handle moves into the call
             let x = self.slots[args[0]].take().expect("dead slot");
-            let f = match op {
-                ActRelu => corgi::activation::relu(),
-                ActSigmoid => corgi::activation::sigmoid(),
-                _ => corgi::activation::softmax(),
+            let acts = Rc::clone(&self.acts);
+            return match op {
+                ActRelu => (acts.relu)(x),
+                ActSigmoid => (acts.sigmoid)(x),
+                _ => (acts.softmax)(x),
             };
-            return f(x);
         }
         let a: Vec<&Array> = args.iter().map(|&h| self.slots[h].as_ref().expect("dead slot")).collect();
         match op {
